@@ -146,6 +146,10 @@ pub fn run(prop: &str, key: &str, seed: u64, budget: Duration) -> Outcome {
                     true
                 }
                 Verdict::Trivial => true,
+                Verdict::Fail { observed, expected } if std::env::var("SDJWT_KEEP_GOING").is_ok() => {
+                    eprintln!("VIOLATION {} input={} observed={} expected={}", g.name, jstr(&case), observed, expected);
+                    true
+                }
                 Verdict::Fail { observed, expected } => {
                     violation = Some((g.name.to_string(), case, observed, expected));
                     false
